@@ -139,12 +139,12 @@ def step (s : St) (w : List String) : St × String :=
       let n := rcvBlocks (addLive 10240) s.q s.node (ks.map (segBlk base))
       ({ s with node := n }, showNode s.q n)
     | _, _ => (s, "bad-op")
-  | ["confirm", base, k, sig] =>
-    match base.toNat?, k.toNat?, sig.toNat? with
-    | some base, some k, some sig =>
-      let n := rcvConfirm s.node { hash := k, height := base + k, sig := sig }
+  | ["confirm", base, k, sig, off] =>
+    match base.toNat?, k.toNat?, sig.toNat?, off.toNat? with
+    | some base, some k, some sig, some off =>
+      let n := rcvConfirm s.node { hash := k, height := base + k + off, sig := sig }
       ({ s with node := n }, showNode s.q n)
-    | _, _, _ => (s, "bad-op")
+    | _, _, _, _ => (s, "bad-op")
   | ["tick", a] =>
     match parseBool? a with
     | some a => let n := tick a s.node; ({ s with node := n }, showNode s.q n)
